@@ -22,8 +22,9 @@ CHECKS = {
  "C03": ("faithful fuelled Gallina model of the whole inference engine (unify/bind/above/below/check_constraints/"
          "fulfill/minimize/fix/instance/apply), tied to /repo by comparing the complete canonical store after every "
          "generated program; a witness checker proved sound w.r.t. Sub validates every accepted case (all groundings "
-         "of unresolved variables from a finite pool, resolved constraints, bounded variables); the unconditional "
-         "soundness theorem of the engine is NOT proved (partial: per-instance verified checker)",
+         "of unresolved variables from a finite pool, resolved constraints, bounded variables); C03_core_sound proves "
+         "the statement unconditionally (every satisfying grounding, satisfiability, boundedness) for constraint-free "
+         "schemas; for constrained schemas the proof is per-instance (verified checker) - partial",
          "4 C03", "Coq-verified per-instance checker + engine model correspondence (universal soundness partial)"),
  "C05": ("on the faithful engine model: lub / permutation invariance / monotonicity proved for every hierarchy and "
          "any number of chain arguments (identity and nested covariant contexts, Top/Bottom included), glb for the "
@@ -41,6 +42,11 @@ CHECKS = {
          "operations, nested internals fed by the enclosing one), first-order case = plain tree; run against "
          "TransformationGraph.add_expr of /repo with an own isomorphism check",
          "4 C08", "Coq proof by induction on expressions + correspondence + independently built graph oracle"),
+ "C10": ("expand_canon as a worklist closure (any stack order) and the repaired Language.successors modelled: canon = "
+         "least closed set containing every allowed subtype of the listed types, links sound, mirrored, reachability "
+         "= strict subtype among canonical types, transitive listings and subClassOf triples (and closure) exact; "
+         "pinned algorithm refuted; run against Language.canon/subtypes/supertypes/add_taxonomy/add_vocabulary",
+         "4 C10", "Coq proof (worklist closure, chain lemma) + correspondence + order oracle"),
  "C09": ("add_from model: depends = transitive closure of from after every call list (any order, cycles, both "
          "flags), every prefix closed, order irrelevant; verified closure decider used as oracle on every generated "
          "expression/workflow graph and direct call history of /repo",
